@@ -475,10 +475,12 @@ def stream_lagrangian(ctx, rng, N):
         id2k = {int(gamma.scalar_variable_ids[0]): 0}
         nxt = 1
         s_ids, z_ids = [], []
+        used = set()          # two folded constraints may be the same function: each multiplier is matched once
         for lst, out, pairs in ((mg, s_ids, ineq), (me, z_ids, eq)):
             for s_model in lst:
                 key = c04.model_key(s_model)
-                sg = next(s for s, g in pairs if c04.sig_key(g) == key)
+                sg = next(s for s, g in pairs if c04.sig_key(g) == key and id(s) not in used)
+                used.add(id(sg))
                 ids = []
                 for sid in sg.c.scalar_variable_ids:
                     id2k[int(sid)] = nxt
